@@ -29,3 +29,12 @@ package manifest
 //@   ensures [consumed-in-bounds] 0 <= result1 && result1 <= len(data)
 //@   ensures [payload-inside] len(result) <= len(data)
 //@   modifies nothing
+
+// CloneRegionMeta: a deep copy - equal scalar fields, byte-wise equal keys; it writes
+// only memory it allocates.
+//@ func CloneRegionMeta
+//@   property C26
+//@   ensures [same-id-epoch-state] result.ID == meta.ID && result.Epoch.Version == meta.Epoch.Version && result.Epoch.ConfVersion == meta.Epoch.ConfVersion && uint8(result.State) == uint8(meta.State)
+//@   ensures [same-start-key] beq(result.StartKey, meta.StartKey)
+//@   ensures [same-end-key] beq(result.EndKey, meta.EndKey)
+//@   modifies nothing
